@@ -229,6 +229,15 @@ VdrFinal ==
     /\ bad' = bad \o FinalViolations
     /\ UNCHANGED <<fvars, run, exp, faults, begun, ended, killed, done0, failed, phase, pcr, weakp, tainted, jvars>>
 
+(* C12, cluster mode: nums = <<jobs submitted to the cluster and not finished, --maxjobs>> *)
+ClusterSubmit ==
+    /\ Ev.ev = "ClusterSubmit"
+    /\ bad' = bad \o (IF Ev.nums[1] > Ev.nums[2]
+                      THEN <<Viol("C12", "more jobs are on the cluster than --maxjobs allows: " \o ToString(Ev.nums[1])
+                                         \o " submitted and not finished, limit " \o ToString(Ev.nums[2]))>>
+                      ELSE <<>>)
+    /\ UNCHANGED <<fvars, run, exp, faults, begun, ended, killed, done0, failed, phase, pcr, weakp, tainted, jvars>>
+
 (* mrp was interrupted: killed outright, or by a signal it handles - then the
    pipestance must be left unlocked (flag = no _lock after the exit) *)
 Interrupted ==
@@ -281,13 +290,13 @@ Restart ==
 
 Other ==
     /\ Ev.ev \notin {"RunBegin", "StageBegin", "StageEnd", "StageKilled", "RunEnd", "Restart", "Interrupted",
-                     "JobSubmitted", "JournalWrite", "JournalSeen", "JournalRemove", "MdCache", "VdrRemove", "VdrFinal"}
+                     "JobSubmitted", "JournalWrite", "JournalSeen", "JournalRemove", "MdCache", "VdrRemove", "VdrFinal", "ClusterSubmit"}
     /\ UNCHANGED <<fvars, run, exp, faults, begun, ended, killed, done0, failed, phase, pcr, weakp, tainted, bad, jvars>>
 
 Next == /\ l <= Len(Trace)
         /\ l' = l + 1
         /\ (RunBegin \/ StageBegin \/ StageEnd \/ StageKilled \/ RunEnd \/ Restart \/ Interrupted
-            \/ JobSubmitted \/ JournalWrite \/ JournalSeen \/ JournalRemove \/ MdCache \/ VdrRemove \/ VdrFinal \/ Other)
+            \/ JobSubmitted \/ JournalWrite \/ JournalSeen \/ JournalRemove \/ MdCache \/ VdrRemove \/ VdrFinal \/ ClusterSubmit \/ Other)
 
 Spec == Init /\ [][Next]_vars
 
